@@ -40,8 +40,12 @@ def atomic_prim_term(t):
     return None
 
 
+_DROP_OF_BORROW = re.compile(r"^std::mem::drop::<(std|core)::cell::(Ref|RefMut)<")
+
+
 def effect_calls(body, pure=PURE):
-    return [c for c in body.calls() if not c.matches(pure)]
+    """Calls that may have an effect.  `drop(borrow)` of a RefCell borrow only ends the borrow (what an implicit drop at the end of the scope does anyway)."""
+    return [c for c in body.calls() if not c.matches(pure) and not _DROP_OF_BORROW.match(c.callee_args or "")]
 
 
 def ordering_of(term):
